@@ -92,7 +92,7 @@ func vfGenAddr(t *rapid.T) netip.Addr {
 }
 
 func TestVfC15Limiter(t *testing.T) {
-	st := vfkit.Stats("TestVfC15Limiter", "limiter options (limit, burst incl. default, masks omitted, in range, or no prefix length at all = default) x arrival histories of (address in few v4/v6/v4-mapped subnets, dt >= 0, cost 1..15) in virtual time; non-trivial = >= 2 subnets, >= 1 refusal and >= 1 admission after a refusal")
+	st := vfkit.Stats("TestVfC15Limiter", "limiter options (limit, burst incl. default, masks omitted, in range, or no prefix length at all = default) x arrival histories of (address in few v4/v6/v4-mapped subnets, dt >= 0, cost 1..15) in virtual time, in one case of 1200 after a crowd of 66 000-90 000 clients from as many other subnets; non-trivial = >= 2 subnets, >= 1 refusal and >= 1 admission after a refusal")
 	defer vfkit.Flush()
 	base := time.Now()
 	rapid.Check(t, func(t *rapid.T) {
@@ -129,6 +129,26 @@ func TestVfC15Limiter(t *testing.T) {
 			}
 			now += dt
 			evs[i] = vfEvent{addr: vfGenAddr(t), at: now, cost: rapid.SampledFrom([]int{1, 1, 2, 3, 15}).Draw(t, "cost")}
+		}
+
+		// In one case of 1200 a crowd comes first: 66 000-90 000 other clients, each from a subnet of its own (under
+		// the default masks), one query each at the first instant. Whatever the limiter keeps per subnet, the clients
+		// that follow are decided as if the crowd's subnets were not there.
+		nCrowd := 0
+		if rapid.IntRange(0, 1199).Draw(t, "crowd") == 0 {
+			nCrowd = rapid.IntRange(66000, 90000).Draw(t, "crowdSize")
+			crowd := make([]vfEvent, nCrowd)
+			for i := range crowd {
+				k := i / 2
+				if i%2 == 0 {
+					crowd[i] = vfEvent{addr: netip.AddrFrom4([4]byte{byte(128 + (k>>16)%96), byte(k >> 8), byte(k), 1}), cost: 1}
+				} else {
+					var x [16]byte
+					x[0], x[1], x[3], x[4], x[5], x[15] = 0x2a, 0x02, byte(k>>16), byte(k>>8), byte(k), 1
+					crowd[i] = vfEvent{addr: netip.AddrFrom16(x), cost: 1}
+				}
+			}
+			evs = append(crowd, evs...)
 		}
 
 		run := func(events []vfEvent) []bool {
@@ -168,6 +188,9 @@ func TestVfC15Limiter(t *testing.T) {
 			}
 		}
 		for k, idx := range bySub {
+			if len(idx) > 400 {
+				continue // a crowd that the configured mask folds into one subnet: the reference above has decided each event
+			}
 			for a := 0; a < len(idx); a++ {
 				sum := 0.0
 				for b := a; b < len(idx); b++ {
@@ -187,6 +210,9 @@ func TestVfC15Limiter(t *testing.T) {
 		}
 		if len(subnets) >= 2 {
 			for k := range subnets {
+				if nCrowd > 0 && k != vfRefKey(evs[len(evs)-1].addr, ref4, ref6) {
+					continue // with a crowd: the subnet of the last client
+				}
 				var mine []vfEvent
 				var idx []int
 				for i, e := range evs {
@@ -222,6 +248,10 @@ func TestVfC15Limiter(t *testing.T) {
 		}
 		if len(subnets) >= 2 {
 			classes = append(classes, "multi-subnet")
+		}
+		if nCrowd > 0 {
+			classes = append(classes, "crowd-of-66000+-subnets-first")
+			evs, got = evs[nCrowd:], got[nCrowd:]
 		}
 		st.Case(vfkit.Fingerprint(fmt.Sprint(opts), fmt.Sprint(evs)), len(subnets) >= 2 && refused && admittedAfter, classes, func() any {
 			return map[string]any{"opts": fmt.Sprintf("%+v", opts), "events": fmt.Sprint(evs[:min(8, len(evs))]), "decisions": fmt.Sprint(got[:min(8, len(got))])}
